@@ -1550,6 +1550,23 @@ variant('b-tcp-payload-before-prefix', ['C02'], 'rsocket/transports/tcp.py',
         "            self._writer.write(serialize_prefix_with_frame_size_header(frame))\n            frame.write_data_metadata(self._writer.write)",
         "            frame.write_data_metadata(self._writer.write)\n            self._writer.write(serialize_prefix_with_frame_size_header(frame))",
         ('C02.e', 'TransportTCP.send_frame'))
+SFG = 'rsocket/streams/stream_from_generator.py'
+_LAZY_OLD = "    def subscribe(self, subscriber: Subscriber):\n        super().subscribe(subscriber)\n\n        if self._payload_feeder is None:\n            self._payload_feeder = asyncio.create_task(self.feed_subscriber())\n\n    def request(self, n: int):\n"
+_LAZY_NEW = "    def request(self, n: int):\n        if self._payload_feeder is None:\n            self._payload_feeder = asyncio.create_task(self.feed_subscriber())\n\n"
+variant_multi('b-generator-publisher-restarts-after-completion', ['C07', 'C08'], [
+    (SFG, _LAZY_OLD, _LAZY_NEW),
+    (SFG, "        finally:\n            self._cancel_n_feeder()\n\n    def _send_to_subscriber",
+     "        finally:\n            self._payload_feeder = None\n            self._cancel_n_feeder()\n\n    def _send_to_subscriber")],
+    ('C07.e', 'a completed publisher does not start delivering again'))
+variant_multi('t-generator-publisher-lazy-delivery-feeder', ['C07', 'C08', 'C06', 'C01'], [(SFG, _LAZY_OLD, _LAZY_NEW)],
+              kind='twin')
+variant('b-graphql-yield-outside-generator-exit-guard', ['C09'], 'rsocket/graphql/rsocket_transport.py',
+        "            except GeneratorExit:\n                logger().debug('Generator exited')\n                subscriber.cancel()\n                return",
+        "            except GeneratorExit:\n                logger().debug('Generator exited')\n                return",
+        ('C09.j', 'RSocketTransport.subscribe'))
+variant('b-rx-feedback-subject-replays', ['C20', 'C06'], 'rsocket/rx_support/back_pressure_publisher.py',
+        "        self._feedback = Subject()", "        self._feedback = ReplaySubject()",
+        ('C20.i', 'the credit channel does not replay'))
 variant('b-send-error-noop', ['C12'], RB,
         "        self.send_frame(exception_to_error_frame(stream_id, exception))",
         "        logger().error('error on stream %s: %s', stream_id, exception)", ('C12.b', 'RSocketBase.send_error'))
